@@ -187,6 +187,14 @@ def build_contract(em: EmittedMethod, o, props=("C04", "C06")):
             conj.append(f'sent("data") == ser({b})')
         else:
             conj.append(f'(sent("data") == {b} or sent("content") == {b})')
+    elif o["body"] is not None and len(o["body"]["types"]) > 1:
+        # several request media types: one keyword argument per variant (body / files / data). Whatever `content_type` says, a variant argument
+        # that is the only one supplied goes on the wire under its own keyword (serialised; multipart files may be passed as they are)
+        variant = {"application/json": ("body", "json"), "multipart/form-data": ("files", "files"), "application/x-www-form-urlencoded": ("data", "data")}
+        present = [(variant[ct][0], variant[ct][1]) for ct in o["body"]["types"] if ct in variant and variant[ct][0] in em.args]
+        for arg, kw in present:
+            others = " and ".join(f"{a2} is None" for a2, _ in present if a2 != arg) or "True"
+            conj.append(f'(not ({arg} is not None and {others}) or sent({kw!r}) == ser({arg}) or sent({kw!r}) == {arg})')
     elif o["body"] is None:
         conj.append('sent("json") is None and sent("data") is None and sent("files") is None')
     body = " and ".join(conj)
